@@ -507,13 +507,26 @@ static std::string one_of(const std::string& a, const std::string& b, const std:
 // The propagation code has one branch per (relation, sign of the pivot coefficient, sign of every other coefficient) and each
 // reads a particular boundary (and its openness) of every other variable: only such receivers make a wrong flag observable.
 // The step is an ordinary, traced use of the public interface; the receiver's shadow is re-observed afterwards.
+static bool g_reboxed = false;
+static std::string g_profile;
+// the constraint that goes with a reboxed receiver: every variable occurs with a small coefficient, equalities dominate
+static Constraint gen_con_prop(int n, bool strict_ok) {
+  Linear_Expression e;
+  for (int i = 0; i < n; ++i) { int a = rnd(1, 3); if (coin()) a = -a; if (!coin(10)) e += Coefficient(a) * Variable(i); }
+  e += Coefficient(rnd(-6, 6));
+  int r = coin(60) ? 2 : rrel(strict_ok);
+  return mk_con(e, r, Linear_Expression(Coefficient(0)));
+}
 static bool rebox(StepCtx& c) {
-  if (c.n < 2 || c.SA.empty || !coin(35)) return true;
+  g_reboxed = false;
+  if (c.n < 2 || c.SA.empty || !coin(g_profile == "prop" ? 90 : 40)) return true;
+  g_reboxed = true;
+  int free_var = coin(70) ? rnd(0, c.n - 1) : -1;   // the variable whose derived bounds will be the binding ones
   BoxI& A = *c.A; const int n = c.n;
   std::ostringstream o; o << c.pre << ".rebox(";
   for (int k = 0; k < n; ++k) A.unconstrain(Variable(k));
   for (int k = 0; k < n; ++k) {
-    int m = rnd(0, 9);               // 0: unbounded, 1: below only, 2: above only, otherwise both
+    int m = k == free_var ? 0 : rnd(0, 11);              // 0: unbounded, 1: below only, 2: above only, otherwise both
     int lo = rnd(-6, 4), hi = lo + rnd(0, 6);
     bool lo_open = TI.open && coin(40), hi_open = TI.open && coin(40);
     if (m != 0 && m != 2) { Constraint q = lo_open ? Constraint(Variable(k) > lo) : Constraint(Variable(k) >= lo); o << str(q) << " "; A.add_constraint(q); }
@@ -531,6 +544,7 @@ static bool mutate(StepCtx& c) {
   std::ostringstream t; t << c.pre;
   std::string bref = "#" + std::to_string(c.bi);
   int k = rnd(0, 99);
+  if (g_profile == "prop") k = coin() ? 10 : 25;   // refine_with_constraint(s) / propagate_constraint(s) only
   if (k < 9) { // add_constraint(s): interval constraints only
     int which = rnd(0, 2); int cnt = which == 0 ? 1 : rnd(0, 3);
     std::vector<Constraint> cv;
@@ -547,7 +561,7 @@ static bool mutate(StepCtx& c) {
     if (!rebox(c)) return true;
     bool many = coin(); int cnt = many ? rnd(0, 3) : 1;
     std::vector<Constraint> cv; bool all_itv = true;
-    for (int i = 0; i < cnt; ++i) { Constraint cc = (n > 0 && coin(30)) ? itv_con(n, true) : gen_con_mixed(n, true); if (!is_interval_con(cc, n)) all_itv = false; cv.push_back(cc); }
+    for (int i = 0; i < cnt; ++i) { Constraint cc = (g_reboxed && coin(75)) ? gen_con_prop(n, true) : (n > 0 && coin(30)) ? itv_con(n, true) : gen_con_mixed(n, true); if (!is_interval_con(cc, n)) all_itv = false; cv.push_back(cc); }
     Constraint_System cs; for (size_t i = 0; i < cv.size(); ++i) cs.insert(cv[i]);
     std::string nm = many ? "refine_with_constraints" : "refine_with_constraint";
     t << "." << nm << "("; for (size_t i = 0; i < cv.size(); ++i) t << (i ? ", " : "") << str(cv[i]); t << ")"; tr(t.str()); note_op(c, nm, all_itv ? "interval" : "general", false);
@@ -591,7 +605,7 @@ static bool mutate(StepCtx& c) {
   if (k < 28) { // propagate_constraint(s)
     if (!rebox(c)) return true;
     bool many = coin(); int cnt = many ? rnd(1, 3) : 1;
-    std::vector<Constraint> cv; for (int i = 0; i < cnt; ++i) cv.push_back(gen_con_mixed(n, true));
+    std::vector<Constraint> cv; for (int i = 0; i < cnt; ++i) cv.push_back((g_reboxed && coin(75)) ? gen_con_prop(n, true) : gen_con_mixed(n, true));
     Constraint_System cs; for (size_t i = 0; i < cv.size(); ++i) cs.insert(cv[i]);
     static const int its[5] = { 1, 2, 3, 5, 20 }; int mi = its[rnd(0, 4)];
     std::string nm = many ? "propagate_constraints" : "propagate_constraint";
@@ -1372,7 +1386,7 @@ static BoxI* random_box(const BoxI& proto, int n, std::string& txt) {
 }
 
 static void run_case(uint64_t) {
-  const std::string profile = hx::opt().profile;
+  const std::string profile = hx::opt().profile; g_profile = profile;
   std::vector<Entry>& tab = table();
   std::string want = hx::opt().gets("inst", "all");
   E = 0;
@@ -1384,6 +1398,7 @@ static void run_case(uint64_t) {
   int dk = rnd(0, 99); int n = dk < 5 ? 0 : dk < 30 ? 1 : dk < 68 ? 2 : 3;
   if (g_maxdim >= 4 && dk >= 92) n = 4;
   if (profile == "wrap" && n == 0) n = 1;
+  if (profile == "prop") n = coin(70) ? 3 : 4;   // the propagation case analysis needs at least three variables
   const int NP = 3;
   std::vector<BP> pool(NP);
   BP proto(E->make(0, false));
@@ -1410,6 +1425,7 @@ static void run_case(uint64_t) {
       if (profile == "conv") { w_mut = 25; w_query = 8; w_conv = 50; w_dims = 10; w_int = 5; w_twin = 2; }
       else if (profile == "pred") { w_mut = 30; w_query = 42; w_conv = 5; w_dims = 5; w_int = 3; w_twin = 15; }
       else if (profile == "wrap") { w_mut = 25; w_query = 8; w_conv = 4; w_dims = 3; w_int = 60; w_twin = 0; }
+      else if (profile == "prop") { w_mut = 100; w_query = 0; w_conv = 0; w_dims = 0; w_int = 0; w_twin = 0; }
       if (!TI.exact) { w_query += w_twin; w_twin = 0; }
       int kind = rnd(0, 99);
       auto do_step = [&]() {
